@@ -931,6 +931,12 @@ impl Store {
                 continue;
             }
 
+            // the atc index pads or truncates the tag value and holds every 'd' tag of an
+            // event, so we have to compare the identifier (the first 'd' tag) itself
+            if event.tags()?.get_value(b"d") != Some(addr.d.as_slice()) {
+                continue;
+            }
+
             return Ok(Some(event));
         }
 
@@ -1043,10 +1049,13 @@ impl Store {
         for result in iter {
             let (_key, offset) = result?;
 
-            // Our index doesn't have Kind embedded, so we have to check it
+            // Our index doesn't have Kind embedded, so we have to check it. It also pads or
+            // truncates the tag value and holds every 'd' tag of an event, so we have to
+            // compare the identifier (the first 'd' tag) itself
             let matches = {
                 let event = self.get_event_by_offset(offset)?;
                 event.kind() == addr.kind
+                    && event.tags()?.get_value(b"d") == Some(addr.d.as_slice())
             };
 
             if matches {
